@@ -8,7 +8,7 @@ use crate::driver::{AnyFlow, ReqCfg};
 use crate::engine::{guarded, Report, Tier, Violation};
 use crate::refmodel::{head, redirect};
 
-pub const RULE: &str = "full product: method (9) x status 300..=399 x policy {Never, SameHost} x response body {Content-Length: 0, Content-Length: 3 + body, chunked body, no framing header} x Location {/next, absent, one that resolves to the request's own URI, one on another host, a relative one whose query holds a complete URL, the https twin of the request's URI} x request mode {plain; HTTP/1.0 request (GET, HEAD, POST); an interim 103 handed out by the same flow first (GET, POST, DELETE); loaded (cookie, referer, origin, user-agent and the caller's own Transfer-Encoding: chunked; body-less methods with send-body-despite-method; two superfluous try_response polls after the response was received); send-body-despite-method (body-less methods); Expect: 100-continue refused by the 3xx itself, and late 100 delivered in the same buffer as the 3xx (body methods)} = 172800 cells, each evaluated with the library's logging off and again with it at level Trace (debug!/trace! arguments evaluated and formatted), each driven through the real flow from Prepare to the state after the response (through RecvBody where there is one), then as_new_flow and the head of the new request; plus method (9) x status {300,301,302,303,305,307,308,399} x policy along a chain of 24 redirects of that status (every fifth to another host), the table checked at every hop. distinct = distinct (method, status class, body kind, outcome) cells";
+pub const RULE: &str = "full product: method (9) x status 300..=399 x policy {Never, SameHost} x response body {Content-Length: 0, Content-Length: 3 + body, chunked body, no framing header} x Location {/next, absent, one that resolves to the request's own URI, one on another host, a relative one whose query holds a complete URL, the https twin of the request's URI} x request mode {plain; HTTP/1.0 request (GET, HEAD, POST); an interim 103 handed out by the same flow first (GET, POST, DELETE); an empty-valued field ahead of the Location field (GET, POST, DELETE); loaded (cookie, referer, origin, user-agent and the caller's own Transfer-Encoding: chunked; body-less methods with send-body-despite-method; two superfluous try_response polls after the response was received); send-body-despite-method (body-less methods); Expect: 100-continue refused by the 3xx itself, and late 100 delivered in the same buffer as the 3xx (body methods)} = 187200 cells, each evaluated with the library's logging off and again with it at level Trace (debug!/trace! arguments evaluated and formatted), each driven through the real flow from Prepare to the state after the response (through RecvBody where there is one), then as_new_flow and the head of the new request; plus method (9) x status {300,301,302,303,305,307,308,399} x policy along a chain of 24 redirects of that status (every fifth to another host), the table checked at every hop. distinct = distinct (method, status class, body kind, outcome) cells";
 
 const METHODS: [&str; 9] = ["GET", "HEAD", "POST", "PUT", "DELETE", "CONNECT", "OPTIONS", "TRACE", "PATCH"];
 const BODIES: [&str; 24] = ["cl0", "cl3", "chunked", "none", "cl0-noloc", "cl3-noloc", "chunked-noloc", "none-noloc", "cl0-self", "cl3-self", "chunked-self", "none-self", "cl0-xhost", "cl3-xhost", "chunked-xhost", "none-xhost", "cl0-urlq", "cl3-urlq", "chunked-urlq", "none-urlq", "cl0-https", "cl3-https", "chunked-https", "none-https"];
@@ -55,7 +55,8 @@ fn check_cell(method: &str, status: u16, same_host: bool, body: &str) -> (Option
         if mode == "despite" {
             cfg = cfg.despite(true);
         }
-        let mut resp = format!("HTTP/1.1 {} X\r\n{}", status, loc_line);
+        // mode "emptyfield": an empty-valued field ahead of the Location field (and of the framing fields)
+        let mut resp = format!("HTTP/1.1 {} X\r\n{}{}", status, if mode == "emptyfield" { "Content-Language:\r\n" } else { "" }, loc_line);
         let body_bytes: &[u8] = match body {
             "cl0" => {
                 resp.push_str("Content-Length: 0\r\n");
@@ -254,6 +255,7 @@ pub fn run(_tier: Tier) -> Report {
                     }
                     if matches!(m, "GET" | "POST" | "DELETE") {
                         jobs.push((m, s, p, format!("after103+{}", b)));
+                        jobs.push((m, s, p, format!("emptyfield+{}", b)));
                     }
                     let body_method = crate::refmodel::reqvalid::needs_body(m);
                     if !body_method {
